@@ -62,6 +62,20 @@ CHECKS = {
         technique="contract-based deductive verification: AST->z3 verification conditions over a symbolic flag state, "
                   "path-complete symbolic execution of the real extension/callback/entry-point code, modular stubs for "
                   "transform/get_meta, native replay"),
+    "C14": dict(
+        category="proof",
+        text="History independence as an inductive invariant over the real code: (1) mechanical inventory of all state of the "
+             "transformer/holder/extension/compiler/preprocessor classes (class-level mutable containers must be re-bound per "
+             "instance; unclassified attributes make the check undecided); (2) reset() restores the fresh value of every "
+             "per-behaviour attribute from an arbitrary symbolic/dirty state; (3) every public entry point (transform_insn, "
+             "compile_insn, compile_c_stmt, compile_sub_routine, add_sub_routine) leaves that state reset on normal AND "
+             "exceptional exit, with parse/transform replaced by havocking stubs that may raise; (4) writes to shared resource "
+             "objects are unobservable (two-state obligations); (5) numbering enters results only through the name h_tmp<N>.",
+        design_ref="DESIGN.md section 3, C14",
+        note=TRUST + "Lark parse/transform as assumed contracts (T-LARK); induction over call history is metatheory (T-IND); "
+             "per-callback write frames are the #modifies obligations of C02/C03 (add_op via contract).",
+        technique="contract-based deductive verification: frame/reset postconditions on all exits by path-complete symbolic "
+                  "execution of the real entry points with havocking stubs, mechanical state inventory, two-state obligations"),
 }
 
 NOT_APPLICABLE = {
